@@ -281,7 +281,7 @@ def main(argv):
     rep = harness.Report(PROP, a.tier, a.seed, "fault_enumeration")
     bases = bases_for(a.tier, a.seed)
     jobs = [{"base": b, "seed": core.h64(a.seed, "c24", i), "tier": a.tier} for i, b in enumerate(bases)]
-    results = harness.pmap(explore, jobs, chunk=1, hang_s=900)
+    results = harness.pmap(explore, jobs, chunk=1, hang_s=900 if a.tier == "quick" else 3000)
     tot = {"cuts": 0, "unique_states": 0, "torn": 0, "chain_cuts": 0, "insitu_checked": 0,
            "resumed_ok": 0, "restart_from_scratch": 0}
     windows = {}
